@@ -361,6 +361,39 @@ def _hidden_from_users(w):
   return names
 
 
+def _record_returning(w, _cache={}):
+  """Names of the RecordSet methods that return a record, read from the code (whatever they are
+  called): every return value is self._table.Record(...), a call of another such method on self,
+  or a local holding one of those."""
+  if id(w) in _cache:
+    return _cache[id(w)][0]
+  rs = w.repo.cls("records.RecordSet")
+  good = set()
+  changed = True
+  while changed:
+    changed = False
+    for name, fi in rs.methods.items():
+      if name in good:
+        continue
+      v = H.View(w.fn_of(fi))
+      rets = [r for r in walk_no_nested(fi.node) if isinstance(r, ast.Return)]
+      if not rets or any(r.value is None for r in rets):
+        continue
+      ok = True
+      for r in rets:
+        for (e, at, facts) in v.alternatives(r.value):
+          e = v.binding(e, at=at) if isinstance(e, ast.Name) else e
+          t = text(e.func) if isinstance(e, ast.Call) else ""
+          if not (t == "self._table.Record" or
+                  (t.startswith("self.") and t.count(".") == 1 and t.split(".")[1] in good)):
+            ok = False
+      if ok:
+        good.add(name)
+        changed = True
+  _cache[id(w)] = (good, w)
+  return good
+
+
 def r2_registries(run, w):
   R2 = run.rule("C16-R2", "the name registries that drive formula renaming agree with the APIs "
                 "they describe", floor=12)
@@ -435,8 +468,8 @@ def r2_registries(run, w):
     for s in walk_no_nested(fi.node):
       if isinstance(s, ast.Return) and s.value is not None:
         v = fview.res(s.value)
-        if isinstance(v, ast.Call) and endswith(fview.t(v.func), "_rset._bisect_find",
-                                                "_rset._find_eq", "_rset._at"):
+        if isinstance(v, ast.Call) and fview.t(v.func).startswith("self._rset.") and \
+            fview.t(v.func).split(".")[-1] in _record_returning(w):
           kinds.add("record")
         elif isinstance(v, ast.BinOp) and all(
             isinstance(x, (ast.BinOp, ast.Name, ast.Constant, ast.Call, ast.Attribute, ast.Add,
